@@ -68,6 +68,7 @@ type Contract struct {
 	Ranges    map[int]*RangeSpec
 	Callsites []CallsiteSpec
 	Uses      []Clause
+	Opaque    map[string][]string // callee name -> ensures labels kept at its call sites
 	Decreases ast.Expr
 	Iface     bool
 	Src       string
@@ -128,7 +129,7 @@ func newContractSet() *ContractSet {
 var clauseKeywords = map[string]bool{
 	"func": true, "interface": true, "extern": true, "type": true, "ghost": true, "spec": true, "lemma": true, "syncmap": true,
 	"props": true, "requires": true, "ensures": true, "modifies": true, "nopanic": true, "maypanic": true,
-	"inline": true, "assumed": true, "pure": true, "use": true, "deterministic": true, "noworld": true, "loop": true, "range": true, "callsite": true, "decreases": true,
+	"inline": true, "assumed": true, "pure": true, "use": true, "deterministic": true, "noworld": true, "opaque": true, "loop": true, "range": true, "callsite": true, "decreases": true,
 }
 
 func firstWord(s string) string {
@@ -484,6 +485,20 @@ func (c *Contract) addClause(kw, rest string) error {
 		c.Determ = true
 	case "noworld":
 		c.NoWorld = true
+	case "opaque":
+		// opaque <callee> [keep label ...]: at calls of callee only the listed ensures are assumed
+		f := strings.Fields(rest)
+		if len(f) == 0 {
+			return fmt.Errorf("opaque needs a callee name")
+		}
+		if c.Opaque == nil {
+			c.Opaque = map[string][]string{}
+		}
+		keep := []string{}
+		if len(f) > 2 && f[1] == "keep" {
+			keep = f[2:]
+		}
+		c.Opaque[f[0]] = keep
 	case "assumed":
 		l, _ := splitLabel(rest)
 		c.Assumed = l
